@@ -43,13 +43,13 @@ import (
 // pool used for arity 3.
 var c17Pool = []string{
 	"''", "a", `"\xff"`, "-1", "0", "1",
-	"[a]", "$nil", "{|x| }", "(num NaN)", "4611686018427387904", "d/f",
+	"[a]", "$nil", "{|x| }", "4611686018427387904",
 	// --- end of the small pool ---
-	"(num 9223372036854775808)", "1e400", "(num +Inf)", "(num -Inf)", "(num -0.0)", "(num 1/3)",
+	"(num NaN)", "d/f", "(num 9223372036854775808)", "1e400", "(num +Inf)", "(num -Inf)", "(num -0.0)", "(num 1/3)",
 	"[]", "[&]", "[&a=b]", "$true", "{ }", "$nop~", "$fl", "1_000",
 }
 
-const c17SmallPoolN = 12
+const c17SmallPoolN = 10
 
 // Pool values left out of the arity-2 tuples in the quick tier.
 var c17QuickPool2Drop = map[string]bool{"(num -Inf)": true, "[&]": true, "{ }": true, "$true": true, "1_000": true, "(num 1/3)": true}
@@ -136,8 +136,8 @@ func c17ReadsOwnOutput(cmd string, redirs []string) bool {
 		switch {
 		case src == "f":
 			table[dst] = "file"
-		case src == "&-":
-			table[dst] = "closed"
+		case src == "&-", src == "&-1":
+			table[dst] = "closed" // evalForFd reads the number -1 as "close", like "-"
 		case src == "&stdin":
 			table[dst] = table[0]
 		default:
@@ -224,7 +224,7 @@ func TestVerifC17Worker(t *testing.T) {
 		if line[0] != 'C' && w.dirty() {
 			out += "\tDIRTY"
 		}
-		os.Stdout.WriteString(out + "\n")
+		w.answer(out)
 		if n%256 == 0 {
 			runtime.GC() // finalizers close leaked file objects
 		}
@@ -252,6 +252,16 @@ type c17WorkerState struct {
 	nCheck     int
 
 	baseGoroutines int
+
+	outMu   sync.Mutex // serialises the answer of a case with the output-limit bail-out
+	running bool
+}
+
+func (w *c17WorkerState) answer(line string) {
+	w.outMu.Lock()
+	w.running = false
+	os.Stdout.WriteString(line + "\n")
+	w.outMu.Unlock()
 }
 
 func (w *c17WorkerState) init() {
@@ -267,8 +277,12 @@ func (w *c17WorkerState) init() {
 	go func() {
 		for range ch {
 			if w.outCount.Add(1) == c17OutputLimit {
-				os.Stdout.WriteString("END output-limit\n")
-				os.Exit(0)
+				w.outMu.Lock()
+				if w.running { // otherwise the case has just answered by itself
+					os.Stdout.WriteString("END output-limit\n")
+					os.Exit(0)
+				}
+				w.outMu.Unlock()
 			}
 		}
 	}()
@@ -342,7 +356,10 @@ func (w *c17WorkerState) eval(src string) (res string) {
 	w.resetDir()
 	ev, fl := w.newEvaler()
 	defer fl.Close()
+	w.outMu.Lock()
 	w.outCount.Store(0)
+	w.running = true
+	w.outMu.Unlock()
 	defer func() {
 		if r := recover(); r != nil {
 			res = c17PanicResult(r, debug.Stack())
@@ -1072,7 +1089,15 @@ func TestVerifC17(t *testing.T) {
 		})
 		two, twoCmds := core, c17RedirCmds[:c17RedirCmdsCore]
 		if c.Thorough() {
-			two = full
+			// all destinations (the core operators and sources), all commands
+			two, twoCmds = nil, c17RedirCmds
+			for _, d := range c17RedirDst {
+				for _, op := range c17RedirOpsCore {
+					for _, s := range c17RedirSrcCore {
+						two = append(two, d+op+s)
+					}
+				}
+			}
 		}
 		secR2 := section(func() {
 			for _, cmd := range twoCmds {
